@@ -7,6 +7,13 @@ import json, os, subprocess
 ROOT = os.path.dirname(os.path.dirname(os.path.abspath(__file__)))
 
 CHECKS = {
+    "C05": dict(cat="exploration", sec="5 C05",
+                tech="runtime monitor: hook-steered interleavings of session-store operations over real OAuth flows on a full in-process node; at-most-once history oracle; race detector",
+                text="A complete in-process node runs the real RFC021 s2s and OpenID4VP authorization-code flows through a harness-owned proxy that withholds the redeeming hop, "
+                     "yielding fresh valid secrets (authorization code, both request objects, OpenID4VP nonce, s2s nonce, DPoP jti). Each is presented by 2-3 actors steered at "
+                     "session-store operation hooks (seeded schedules, distinct interleavings counted), by 8-16 unsteered actors under the race detector, and sequentially afterwards; "
+                     "codes are also spoiled by a failing redemption first. Oracle: at most one presentation per value succeeds; spoiled codes are dead.",
+                note="In-memory session store only (no redis/memcached in the sandbox); interleavings at hook granularity; after-window replay with future-dated presentations not built."),
     "C08": dict(cat="fault_enumeration", sec="5 C08",
                 tech="runtime monitor: reference-model fold vs real dag.State at quiescent points + write-op fault enumeration + SIGKILL crash workers + hook-steered interleavings + race detector",
                 text="Runs the real dag.State on bbolt through valid histories (page and tree-growth boundaries), rejected and duplicate adds, every single failing "
